@@ -327,6 +327,15 @@ func (e *Engine) runLemmaUnit(u *Unit) {
 		case "let":
 			fn := e.fnByName[lm.Pkg][s.Callee]
 			if fn == nil {
+				if i := strings.Index(s.Callee, "."); i > 0 {
+					for _, alt := range []string{"(" + s.Callee[:i] + ")" + s.Callee[i:], "(*" + s.Callee[:i] + ")" + s.Callee[i:]} {
+						if f := e.fnByName[lm.Pkg][alt]; f != nil {
+							fn = f
+						}
+					}
+				}
+			}
+			if fn == nil {
 				env.errf("lemma calls unknown function %q", s.Callee)
 				continue
 			}
